@@ -11,6 +11,7 @@ import SwimVerif.Model.MapLane
 import SwimVerif.Proofs.ValueLane
 import SwimVerif.Proofs.C03Lines
 import SwimVerif.Proofs.C03Indep
+import SwimVerif.Proofs.C03Fails
 
 set_option linter.unusedVariables false
 namespace SwimVerif.ML
@@ -143,7 +144,7 @@ theorem C03_snapshot_consistent_typed (ops : List Op) (hf : syncIdsFresh [] ops 
     traceOkT {} {} ops = true :=
   traceOkT_init ops hf hl
 
-/-- **Snapshot consistency** (`C03_snapshot_consistent_open` for every trace shorter than 2^64): for every sequence
+/-- **Snapshot consistency** (`C03_snapshot_consistent` for every trace shorter than 2^64): for every sequence
 of lane operations with fresh sync ids, the monitor — run on the rendered lines, exactly as the check runs it on
 implementation traces — accepts the model's trace. (`Proofs/C03Lines.lean`: every line of the protocol parses back to
 what was rendered, so the line-level predicate equals the typed one.) -/
@@ -178,12 +179,21 @@ theorem C03_quiescent_converged (ops : List Op) (hf : syncIdsFresh [] ops = true
         | nil => rfl
         | cons p ps => simp [hpd] at hpe
 
-/-- The full statement (no bound on the length). Not provable as it stands for
-the model: with 2^64 entries queued the epoch of a new entry wraps onto the head's (`EQ.push`: `(head + len) % 2^64`),
-a later update of that key overwrites the head entry and an event is lost — the real `Vec` cannot hold that many
-entries, so this is an artefact of the unbounded lists of the model, not a defect. -/
-def C03_snapshot_consistent_open : Prop :=
+/-- The full statement (no bound on the length of the trace). -/
+def C03_snapshot_consistent : Prop :=
   ∀ (ops : List Op), syncIdsFresh [] ops = true → modelTraceOk {} {} ops = true
+
+/-- The full statement is **false of the model** — an artefact of its unbounded lists, not a defect of the code:
+after updates of the 2^64 + 1 keys `0 … 2^64` with no write in between, the epoch of the newest entry
+(`(head + len) % 2^64` in `EQ.push`) has wrapped onto the head's; a second update of key 2^64 then overwrites the head
+entry (key 0) in place, key 0 is never published, and after the queue is written out the monitor reports the
+observer's replica as diverged (`longOps`, `Proofs/C03Fails.lean`). The real `Vec` cannot hold 2^64 entries, so the
+code cannot reach this; `C03_snapshot_consistent_partial` (bound `ops.length < 2^64`) is the statement that holds. -/
+theorem C03_snapshot_consistent_fails : ¬ C03_snapshot_consistent := by
+  intro h
+  have := h (longOps M64) (longOps_fresh M64)
+  rw [modelTraceOk_eq, longOps_rejected M64 rfl] at this
+  cases this
 
 example : syncIdsFresh [] [.update 1 5, .sync 7, .update 2 6, .remove 1, .write, .write, .write, .write, .write] = true ∧
     traceOkT {} {} [.update 1 5, .sync 7, .update 2 6, .remove 1, .write, .write, .write, .write, .write] = true := by
